@@ -113,6 +113,9 @@ def _mk_dsim(orig):
             mon = "grid.derivative_simulate"
             ctx.seen(mon)
             for ul in self.underliers():
+                if not type(ul).__module__.startswith("pfhedge.") or not getattr(getattr(type(ul), "simulate", None), "__pfv_wrapped__", False):
+                    ctx.ood(mon)  # a user / test double (or a monkey-patched simulate), not one of the library's primaries
+                    continue
                 shapes = {n: tuple(b.shape) for n, b in ul.named_buffers()}
                 sig = (type(self).__name__, type(ul).__name__, float(ul.dt))
                 judge_points(ctx, mon, self.maturity, ul.dt, shapes, sig, type(self).__name__ + ".simulate")
@@ -127,7 +130,7 @@ def _mk_psim(orig):
     def simulate(self, n_paths=1, time_horizon=20 / 250, init_state=None):
         out = orig(self, n_paths=n_paths, time_horizon=time_horizon, init_state=init_state)
         ctx = _CTX
-        if ctx is not None:
+        if ctx is not None and type(self).__module__.startswith("pfhedge."):
             mon = "grid.n_points"
             ctx.seen(mon)
             shapes = {n: tuple(b.shape) for n, b in self.named_buffers()}
